@@ -4,3 +4,4 @@ import Rink.Props.C02
 import Rink.Props.C03
 import Rink.Props.C09
 import Rink.Props.C10
+import Rink.Props.C15
